@@ -262,6 +262,28 @@ def check(run):
             run.check(q.enclosing(x, (ast.For, ast.While)) is None, r3, fi.short, 'False only after all steps were examined', 'returns False inside the loop', x)
         norm_steps = [st for st, v in q.assigned_value(F, ps[0])]
         run.check(len(norm_steps) == 1 and 'isinstance(%s, list)' % ps[0] in q.unparse(norm_steps[0].value), r3, fi.short, 'accepts a macro step or a list of them', 'differs', F)
+    for fname in ('event_is_fired', 'event_is_consumed'):
+        fi = run.fn('sismic.testing:' + fname)
+        F = fi.node
+        pp = q.param_names(F)[2]
+        ploops = [n for n in q.walk(F) if isinstance(n, ast.For) and q.unparse(n.iter) == pp + '.items()']
+        run.check(len(ploops) == 1, r3, fi.short, 'one loop over the expected parameters', 'found %d' % len(ploops), F)
+        for lp in ploops:
+            trues = [x for x in q.walk(F, False) if isinstance(x, ast.Return) and isinstance(x.value, ast.Constant) and x.value.value is True]
+            flags = {a[1] for x in trues for a in guard_atoms(x) if a[0] == 'truthy' and a[1].isidentifier()}
+            run.check(len(flags) == 1, r3, fi.short, 'a single all-parameters-match flag decides', 'flags: %s' % sorted(flags), F)
+            for flag in flags:
+                inside = [(st, v) for st, v in q.assigned_value(F, flag) if q.in_node(st, lp)]
+                outside = [(st, v) for st, v in q.assigned_value(F, flag) if not q.in_node(st, lp)]
+                good = all(isinstance(v, ast.Constant) and v.value is False for st, v in inside) and len(inside) >= 1 and \
+                    all(isinstance(v, ast.Constant) and v.value is True for st, v in outside) and len(outside) == 1
+                run.check(good, r3, fi.short, 'the flag starts True and can only be cleared by a mismatch',
+                          'a later matching parameter can set the flag again: an event with a wrong earlier parameter is accepted', lp)
+                k, v_ = [e.id for e in lp.target.elts] if isinstance(lp.target, ast.Tuple) else ('?', '?')
+                for st, v in inside:
+                    at = guard_atoms(st, stop=lp)
+                    run.check(len(at) == 1 and at[0][0] == '!=' and v_ in (at[0][1], at[0][2]) and ('getattr(' in at[0][1] + at[0][2]) and k in at[0][1] + at[0][2], r3, fi.short,
+                              'cleared exactly when the attribute differs from the expected value', 'condition is %s' % at, st)
     eh = run.fn('sismic.testing:expression_holds')
     rets = [n for n in q.walk(eh.node, False) if isinstance(n, ast.Return)]
     ps = q.param_names(eh.node)
@@ -358,17 +380,25 @@ def check(run):
     aug = [n for n in q.walk(wt.node) if isinstance(n, ast.AugAssign)]
     run.check(len(aug) == 1 and q.unparse(aug[0].target) == 'context.interpreter.clock.time' and isinstance(aug[0].op, ast.Add) and q.unparse(aug[0].value) == 'seconds', r6, wt.short,
               'advances the interpreter clock by the given seconds', 'differs', wt.node)
-    for fname, inner in (('repeat_step', '_repeat_step'), ('reproduce_scenario', '_reproduce_scenario')):
-        f = run.fn('sismic.bdd.steps:' + fname)
-        ex = [c for c in q.calls(f.node) if q.unparse(c.func) == 'context.execute_steps']
-        kw = 'keyword'
-        run.check(len(ex) == 1 and 'keyword' in {x.id for x in ast.walk(ex[0]) if isinstance(x, ast.Name)} and q.param_defaults(f.node).get('keyword') == 'Given', r6, f.short,
-                  'embedded steps executed under the invoking keyword (default Given)', 'differs', f.node)
-        names = {x.id for x in ast.walk(ex[0]) if isinstance(x, ast.Name)} if ex else set()
-        fi2 = run.fn('sismic.bdd.steps:' + inner)
-        c2 = [c for c in q.calls(fi2.node) if isinstance(c.func, ast.Name) and c.func.id == fname]
-        run.check(len(c2) == 1 and any(k.arg == 'keyword' and q.const_str(k.value) == 'When' for k in c2[0].keywords) and
-                  [q.unparse(a) for a in c2[0].args] == q.param_names(fi2.node), r6, fi2.short, 'the when variant forwards its arguments with keyword When', 'differs', fi2.node)
+    byreg = {}
+    for t, p_, f, o in table:
+        byreg.setdefault(p_, {})[t] = f
+    for pat in ('I repeat "{step}" {repeat:d} times', 'I reproduce "{scenario}"'):
+        g, w = byreg.get(pat, {}).get('given'), byreg.get(pat, {}).get('when')
+        run.check(g is not None and w is not None, r6, 'steps', "'%s' registered for given and when" % pat, 'missing registration', None)
+        if g is None or w is None:
+            continue
+        run.check(g is not w, r6, g.name, "'%s': distinct given / when implementations (the keyword must follow the invoking step)" % pat,
+                  'one function serves both step types: the embedded steps cannot be re-executed under the keyword they were invoked with '
+                  '(a `given` reproduction would run `when` sub-steps and start monitoring too early)', g)
+        ex = [c for c in q.calls(g) if q.unparse(c.func) == 'context.execute_steps']
+        names = {x.id for x in ast.walk(ex[0]) if isinstance(x, ast.Name)} if len(ex) == 1 else set()
+        run.check(len(ex) == 1 and 'keyword' in names and q.param_defaults(g).get('keyword') == 'Given', r6, g.name,
+                  'embedded steps executed under the invoking keyword (default Given)', 'differs', g)
+        if g is not w:
+            c2 = [c for c in q.calls(w) if isinstance(c.func, ast.Name) and c.func.id == g.name]
+            run.check(len(c2) == 1 and any(k.arg == 'keyword' and q.const_str(k.value) == 'When' for k in c2[0].keywords) and
+                      [q.unparse(a) for a in c2[0].args] == q.param_names(w), r6, w.name, 'the when variant forwards its arguments with keyword When', 'differs', w)
     rp = run.fn('sismic.bdd.steps:repeat_step')
     lp = [n for n in q.walk(rp.node, False) if isinstance(n, ast.For)]
     run.check(len(lp) == 1 and q.unparse(lp[0].iter) == 'range(repeat)' and any('step' in {x.id for x in ast.walk(c) if isinstance(x, ast.Name)} for c in q.calls(lp[0])), r6, rp.short,
